@@ -9,6 +9,8 @@
 #include "clstepcore/sdai.h"
 #include "repo/expdict_iface.h"
 #include "clstepcore/sdaiSelect.h"
+#include "clstepcore/STEPaggregate.h"
+#include "clstepcore/STEPaggrSelect.h"
 #include "clutils/Str.h"
 #include <ctype.h>
 #include <string.h>
@@ -20,6 +22,12 @@ const char *TypeDescriptor::Name(const char *) const { return "typ"; }
 const char *StrToUpper(const char *w, std::string &s) { s.clear(); for (int i = 0; i < 31 && w[i]; i++) s += (char)toupper(w[i]); return s.c_str(); }
 static void verif_write_content(const SDAI_Select *, ostream &out, const char *sch = 0) { g_content_calls++; g_content_sch = sch; out << "@"; }
 #include "select_extract.inc"
+/* recording contract stub of the select value reader */
+static int g_sr_calls, g_sr_add; static InstMgrBase *g_sr_insts; static const char *g_sr_sch, *g_sr_utype; static Severity g_sr_sev; static int g_cri_calls;
+Severity SDAI_Select::STEPread(istream &, ErrorDescriptor *, InstMgrBase *insts, const char *utype, int add, const char *sch) { g_sr_calls++; g_sr_insts = insts; g_sr_utype = utype; g_sr_add = add; g_sr_sch = sch; return g_sr_sev; }
+Severity CheckRemainingInput(istream &, ErrorDescriptor *e, const char *, const char *) { g_cri_calls++; return e->severity(); }
+#include "selnode_extract.inc"
+#include "src/clutils/errordesc.cc"
 #undef private
 #undef protected
 #include "verif.h"
@@ -46,4 +54,20 @@ extern "C" void h_Select_write()
         __CPROVER_assert(out._m_logc[0] == 'S' && out._m_logt[0][0] == 'T' && out._m_logt[0][1] == 'Y' && out._m_logt[0][2] == 'P' && out._m_logt[0][3] == 0, "C01 the keyword is the name of the value's underlying type in upper case");
         __CPROVER_assert(out._m_logt[1][0] == '(' && out._m_logt[1][1] == 0 && out._m_logt[2][0] == '@' && out._m_logt[3][0] == ')' && out._m_logt[3][1] == 0, "C01 the value stands between the parentheses that follow the keyword");
     }
+}
+
+/* C14/C03: an element of an aggregate of selects is read with the caller's instance set, id offset and schema; its severity is the
+ * element's severity */
+extern "C" void h_SelectNode_STEPread()
+{
+    IN(int, in_add); IN(int, in_sev);
+    __CPROVER_assume(in_add >= 0);
+    __CPROVER_assume(in_sev == SEVERITY_NULL || in_sev == SEVERITY_USERMSG || in_sev == SEVERITY_INCOMPLETE || in_sev == SEVERITY_WARNING || in_sev == SEVERITY_INPUT_ERROR);
+    SelectNode *n = (SelectNode *)malloc(sizeof(SelectNode)); n->node = (SDAI_Select *)malloc(sizeof(SDAI_Select));
+    InstMgrBase *insts = (InstMgrBase *)malloc(8); TypeDescriptor *td = (TypeDescriptor *)malloc(sizeof(TypeDescriptor));
+    istream in; in._m_state = 0; in._m_have = 0; in._m_consumed = 0; g_stream_arbitrary = 1;
+    ErrorDescriptor err; g_sr_calls = g_cri_calls = 0; g_sr_sev = (Severity)in_sev;
+    Severity s = n->SelectNode::STEPread(in, &err, td, insts, in_add, "sch");
+    __CPROVER_assert(g_sr_calls == 1 && g_sr_insts == insts && g_sr_add == in_add && g_sr_sch != 0 && g_sr_utype == 0, "C14 the select element reader gets the caller's instance set, id offset and schema unchanged");
+    __CPROVER_assert(s == (Severity)in_sev && g_cri_calls == 1, "C03 the element's severity is what its value reader reported; what follows the value is checked once");
 }
